@@ -194,4 +194,63 @@ def step (s : St) (op : Op) : St :=
 
 def run (s : St) (ops : List Op) : St := ops.foldl step s
 
+/-! ## execution contexts
+
+A job-table operation (`cmd &`, `wait`, `jobs`, …) can be issued from inside a function, an `eval`,
+a brace group with redirects, a loop body, the last stage of a pipeline under `lastpipe`, a trap
+handler, a sourced file — all executed by the current `Shell`, hence on its `JobManager` — or from a
+subshell / command substitution, which brush executes on a clone of the shell: `impl Clone for Shell`
+gives the clone a fresh, empty `JobManager` (brush-core/src/shell.rs). -/
+
+inductive Ctx where
+  | top | func | func2 | evalStr | brace | loopBody | lastpipe | trapHandler | sourced
+  | subshell | cmdsubst
+  deriving DecidableEq, Repr
+
+def Ctx.forks : Ctx → Bool
+  | .subshell => true
+  | .cmdsubst => true
+  | _ => false
+
+/-- The wrapper's own work before the wrapped commands run — entering a function (once per level),
+re-parsing the string, opening the redirect, evaluating the loop's word list, starting the first
+pipeline stage, dispatching the handler, opening the file — is foreground work: it never touches
+the job table (`query`). -/
+def Ctx.enter : Ctx → List Op
+  | .top => []
+  | .func => [.query]
+  | .func2 => [.query, .query]
+  | .evalStr => [.query]
+  | .brace => [.query]
+  | .loopBody => [.query]
+  | .lastpipe => [.query, .query]
+  | .trapHandler => [.query]
+  | .sourced => [.query]
+  | .subshell => []
+  | .cmdsubst => []
+
+/-- … and after them (leaving the function(s), restoring descriptors, the loop's next test, …) -/
+def Ctx.leave : Ctx → List Op
+  | .top => []
+  | .func2 => [.query, .query]
+  | .lastpipe => [.query, .query]
+  | .subshell => []
+  | .cmdsubst => []
+  | _ => [.query]
+
+def wrap (c : Ctx) (ops : List Op) : List Op := c.enter ++ ops ++ c.leave
+
+/-- the clone a subshell / command substitution runs in -/
+def forkChild (s : St) : St := { s with table := [], gone := [] }
+
+/-- the parent once the clone has run and is dropped: its own table is as it was; only the
+environment's record (tasks created and completed meanwhile) has moved on, and a clone that never
+returns keeps the parent waiting for it -/
+def joinChild (s child : St) : St :=
+  { s with fin := child.fin, nextTask := child.nextTask, launched := child.launched, stuck := child.stuck }
+
+/-- run `ops` issued from context `c` -/
+def runIn (c : Ctx) (s : St) (ops : List Op) : St :=
+  if c.forks then joinChild s (run (forkChild s) ops) else run s (wrap c ops)
+
 end BrushVerif.Jobs
